@@ -470,8 +470,9 @@ package spg
 //@        forall(int(j), trig(res.tokens[j]), 0 <= j && j < r.Length ==> res.tokens[j].value == E[idx(0, oracle(C[N[0]] + j, M[0]))])
 //@   ensures [C02] alphabet:     err == nil ==> forall(int(k), int(k2), trig(E[idx(0, k)], E[idx(0, k2)]), 0 <= k && k < k2 && k2 < M[0] ==> E[idx(0, k)] != E[idx(0, k2)]) &&
 //@        forall(str(c), (exists(int(k), 0 <= k && k < M[0] && E[idx(0, k)] == c)) == inAlpha(c))
-//@   ensures [C02] rejected:     err == nil ==> forall(int(b), trig(S[b]), 0 <= b && b < N[0] ==> !ok(S[b]) && S[b] == catTok(V[b], 0, r.Length) &&
-//@        forall(int(j), trig(V[b][idx(0, j)]), 0 <= j && j < r.Length ==> V[b][idx(0, j)].value == E[idx(0, oracle(C[b] + j, M[0]))]))
+//@   ensures [C02] rejected:     err == nil ==> forall(int(b), trig(S[b]), 0 <= b && b < N[0] ==> !ok(S[b]) && S[b] == catTok(V[b], 0, r.Length))
+//@   ensures [C02] rejected-form: err == nil ==> forall(int(b), int(j), trig(V[b][idx(0, j)]), 0 <= b && b < N[0] && 0 <= j && j < r.Length ==>
+//@        V[b][idx(0, j)].value == E[idx(0, oracle(C[b] + j, M[0]))])
 //@   ensures [C13,C15] fresh:    err == nil ==> fresh(res)
 //@   ensures [C17] silent:       err == nil ==> outn == old(outn) && outl == old(outl)
 //@   ensures [C04] monotone:     ctr >= old(ctr) && pos >= old(pos)
@@ -479,8 +480,9 @@ package spg
 //@   loop 1 invariant [C13] att:   0 <= i && N[0] == i && C[i] == ctr && C[0] == old(ctr) &&
 //@        forall(int(b), int(b2), trig(C[b], C[b2]), 0 <= b && b < i && b2 == b+1 ==> C[b2] == C[b] + r.Length)
 //@   loop 1 invariant [C02] env:   E == arr(chars) && M[0] == len(chars) && off(chars) == 0
-//@   loop 1 invariant [C02] rej:   forall(int(b), trig(S[b]), 0 <= b && b < i ==> !ok(S[b]) && S[b] == catTok(V[b], 0, r.Length) &&
-//@        forall(int(j), trig(V[b][idx(0, j)]), 0 <= j && j < r.Length ==> V[b][idx(0, j)].value == E[idx(0, oracle(C[b] + j, M[0]))]))
+//@   loop 1 invariant [C02] rej:   forall(int(b), trig(S[b]), 0 <= b && b < i ==> !ok(S[b]) && S[b] == catTok(V[b], 0, r.Length))
+//@   loop 1 invariant [C02] rej-form: forall(int(b), int(j), trig(V[b][idx(0, j)]), 0 <= b && b < i && 0 <= j && j < r.Length ==>
+//@        V[b][idx(0, j)].value == E[idx(0, oracle(C[b] + j, M[0]))])
 //@   loop 1 invariant [C06] pent:  p != nil && p.Entropy == entry(p.Entropy)
 //@   loop 1 ghost N[0] = i
 //@   loop 1 ghost C[i] = ctr
